@@ -82,9 +82,11 @@ Peerstore ==
        \cup Flag(Range(Ev.tstored) \subseteq (Range(Ev.tknown) \cup (Range(Ev.twan) \cap Public) \cup (Range(Ev.tlan) \ {"loopback"})),
                  "f_unfiltered_address_of_the_searched_peer_stored")])
 
+\* the caller of a provider search cancels without having read anything (the channel still has to be closed)
+Cancel == Is("Cancel") /\ Step(s)
 Other == Is("End") /\ Step(s)
 Stuck == Is("Stuck") /\ Step([s EXCEPT !.viol = @ \cup {<<"C15", "x_wedged">>}])
-Next == Sent \/ Deliver \/ Return \/ Peerstore \/ Other \/ Stuck
+Next == Sent \/ Deliver \/ Return \/ Peerstore \/ Cancel \/ Other \/ Stuck
 TraceSpec == Init /\ [][Next]_vars
 TraceAccepted == TLCGet("distinct") = NLines
 InvC15 == s.viol = {}
